@@ -11,18 +11,30 @@ package main
 
 import (
 	"bytes"
+	"context"
 	"encoding/csv"
+	"encoding/json"
 	"fmt"
 	"io"
+	"os"
 	"sort"
+	"strconv"
 	"strings"
+	"time"
 
 	"github.com/spf13/afero"
 	grpcscen "github.com/yandex/pandora/components/guns/grpc/scenario"
 	httpscen "github.com/yandex/pandora/components/guns/http_scenario"
+	"github.com/yandex/pandora/components/providers/scenario"
+	scengrpc "github.com/yandex/pandora/components/providers/scenario/grpc"
+	scenhttp "github.com/yandex/pandora/components/providers/scenario/http"
 	scenarioimport "github.com/yandex/pandora/components/providers/scenario/import"
 	"github.com/yandex/pandora/core"
+	coreconfig "github.com/yandex/pandora/core/config"
 	"github.com/yandex/pandora/core/plugin/pluginconfig"
+	"github.com/yandex/pandora/lib/confutil"
+	"github.com/yandex/pandora/lib/mp"
+	"go.uber.org/zap"
 
 	"verifharness/internal/a07ammo"
 	"verifharness/internal/vh"
@@ -133,6 +145,7 @@ var vsFs = afero.NewMemMapFs()
 func initPlugins() {
 	scenarioimport.Import(vsFs)
 	pluginconfig.AddHooks()
+	initResolvers()
 }
 
 func yamlList(ss []string) string {
@@ -236,6 +249,15 @@ func vsrcCsvRun(ext, kind string, ignoreFirst bool, delim string, file []byte, e
 }
 
 func vsrcRun(f []string) string {
+	if len(f) >= 5 && f[3] == "json" {
+		if f[4] == "!" {
+			return vsrcJSONRun(f[1], f[2], nil, false)
+		}
+		return vsrcJSONRun(f[1], f[2], vh.UnHex(f[4]), true)
+	}
+	if len(f) >= 4 && f[3] == "vars" {
+		return vsrcVarsRun(f[1], f[2], f[4:])
+	}
 	if len(f) < 7 || f[3] != "csv" {
 		return "unknown-case"
 	}
@@ -292,6 +314,10 @@ func oracleAll(queries []string) []string {
 		f := strings.Split(q, " ")
 		if len(f) == 2 && f[0] == "csv" {
 			out[i] = oracleCSV(vh.UnHex(f[1]))
+			continue
+		}
+		if len(f) == 2 && f[0] == "jany" {
+			out[i] = oracleJSONAny(vh.UnHex(f[1]))
 			continue
 		}
 		rest = append(rest, q)
@@ -416,4 +442,409 @@ func vsrcRandom(r *vh.Rand) string {
 		nf = 0
 	}
 	return vsrcLine(r.Pick([]string{"yaml", "hcl", "yml", "HCL"}), r.Pick([]string{"http", "grpc"}), r.Chance(1, 2), delim, file, true, vsrcFields(r, nf))
+}
+
+// ---------------------------------------------------------------------------------------
+// the other variable source kinds, description files that cannot be read, typed lists behind an index
+//
+//	vsrc <ext> <kind> json <file|!>             `file/json` source "data"; observation newerr | ok <canonical JSON>
+//	vsrc <ext> <kind> vars <key>=<value>...     `variables` source "vars" with string values (template functions are
+//	                                            executed at construction); observation newerr | ok k=v;k=v
+//	sdesc <kind> <noname|missing|dir>           scenario provider whose description file is not named / does not exist /
+//	                                            is a directory: must be an error of the constructor
+//	indext <type> <idx> <len> <pre>             mp.GetMapValue on users[idx] where users is a list of <type>
+//	                                            (any, str, int, int64, float, map, smap, scalar, nilmap)
+
+func vsrcJSONRun(ext, kind string, file []byte, exists bool) string {
+	_ = vsFs.MkdirAll("vs", 0o755)
+	_ = vsFs.Remove("vs/data.json")
+	if exists {
+		_ = afero.WriteFile(vsFs, "vs/data.json", file, 0o644)
+	}
+	src := "variable_sources:\n  - name: data\n    type: file/json\n    file: vs/data.json\n"
+	if strings.ToLower(ext) == "hcl" {
+		src = "variable_source \"data\" \"file/json\" {\n  file = \"vs/data.json\"\n}\n"
+	}
+	one := int64(1)
+	text := src + string(scenarioText(ext, kind, []scEntry{{name: "sc", weight: &one, requests: []string{"a"}}}))
+	return guard(func() string {
+		a, st := runScenarioFile(kind, "s."+ext, []byte(text))
+		if st != "" {
+			return st
+		}
+		vars := sourceVars(a)
+		if vars == nil {
+			return "ok nostorage"
+		}
+		j, err := json.Marshal(vars["data"])
+		if err != nil {
+			return "ok unprintable"
+		}
+		return "ok " + vh.Hex(j)
+	})
+}
+
+func vsrcVarsRun(ext, kind string, kvs []string) string {
+	var src strings.Builder
+	if strings.ToLower(ext) == "hcl" {
+		src.WriteString("variable_source \"vars\" \"variables\" {\n  variables = {\n")
+		for _, kv := range kvs {
+			p := strings.SplitN(kv, "=", 2)
+			fmt.Fprintf(&src, "    %s = %s\n", hclStr(string(vh.UnHex(p[0]))), hclStr(string(vh.UnHex(p[1]))))
+		}
+		src.WriteString("  }\n}\n")
+	} else {
+		src.WriteString("variable_sources:\n  - name: vars\n    type: variables\n    variables:\n")
+		for _, kv := range kvs {
+			p := strings.SplitN(kv, "=", 2)
+			fmt.Fprintf(&src, "      %s: %s\n", yamlStr(string(vh.UnHex(p[0]))), yamlStr(string(vh.UnHex(p[1]))))
+		}
+		if len(kvs) == 0 {
+			src.WriteString("      {}\n")
+		}
+	}
+	one := int64(1)
+	text := src.String() + string(scenarioText(ext, kind, []scEntry{{name: "sc", weight: &one, requests: []string{"a"}}}))
+	return guard(func() string {
+		a, st := runScenarioFile(kind, "s."+ext, []byte(text))
+		if st != "" {
+			return st
+		}
+		vars := sourceVars(a)
+		if vars == nil {
+			return "ok nostorage"
+		}
+		m, ok := vars["vars"].(map[string]any)
+		if !ok {
+			return fmt.Sprintf("ok other-%T", vars["vars"])
+		}
+		var keys []string
+		for k := range m {
+			keys = append(keys, k)
+		}
+		sort.Strings(keys)
+		var out []string
+		for _, k := range keys {
+			out = append(out, vh.HexS(k)+"="+vh.HexS(fmt.Sprint(m[k])))
+		}
+		if len(out) == 0 {
+			return "ok -"
+		}
+		return "ok " + strings.Join(out, ";")
+	})
+}
+
+// oracleJSONAny: the first JSON value of the file as encoding/json reads it into `any`, re-marshalled
+func oracleJSONAny(b []byte) string {
+	var v any
+	if err := json.NewDecoder(bytes.NewReader(b)).Decode(&v); err != nil {
+		return "0"
+	}
+	j, err := json.Marshal(v)
+	if err != nil {
+		return "0"
+	}
+	return "1 " + vh.Hex(j)
+}
+
+func sdescRun(kind, mode string) string {
+	return guard(func() string {
+		fs := afero.NewMemMapFs()
+		name := "s.yaml"
+		switch mode {
+		case "noname":
+			name = ""
+		case "dir":
+			_ = fs.MkdirAll("s.yaml", 0o755)
+		case "hclmissing":
+			name = "s.hcl"
+		}
+		conf := scenario.ProviderConfig{File: name}
+		var p core.Provider
+		var err error
+		if kind == "http" {
+			p, err = scenhttp.NewProvider(fs, conf)
+		} else {
+			p, err = scengrpc.NewProvider(fs, conf)
+		}
+		if err != nil {
+			return "newerr"
+		}
+		// accepted by the constructor (an in-memory directory reads as an empty file): Run must end with an error
+		ctx, cancel := context.WithCancel(context.Background())
+		defer cancel()
+		done := make(chan error, 1)
+		go func() { done <- p.Run(ctx, core.ProviderDeps{Log: zap.NewNop()}) }()
+		if _, ok := p.Acquire(); ok {
+			return "ok"
+		}
+		if e := <-done; e != nil {
+			return "noammo"
+		}
+		return "ok-empty"
+	})
+}
+
+func indextRun(typ, idx string, length, pre int) string {
+	return guard(func() string {
+		var users any
+		path := "users[" + idx + "]"
+		switch typ {
+		case "any":
+			v := make([]any, length)
+			for i := range v {
+				v[i] = i
+			}
+			users = v
+		case "str":
+			v := make([]string, length)
+			for i := range v {
+				v[i] = fmt.Sprint(i)
+			}
+			users = v
+		case "int":
+			v := make([]int, length)
+			for i := range v {
+				v[i] = i
+			}
+			users = v
+		case "int64":
+			v := make([]int64, length)
+			for i := range v {
+				v[i] = int64(i)
+			}
+			users = v
+		case "float":
+			v := make([]float64, length)
+			for i := range v {
+				v[i] = float64(i)
+			}
+			users = v
+		case "map":
+			v := make([]map[string]any, length)
+			for i := range v {
+				v[i] = map[string]any{"v": i}
+			}
+			users = v
+			path += ".v"
+		case "smap":
+			v := make([]map[string]string, length)
+			for i := range v {
+				v[i] = map[string]string{"v": fmt.Sprint(i)}
+			}
+			users = v
+			path += ".v"
+		case "scalar":
+			users = "not-a-list"
+		case "uints":
+			users = make([]uint, length)
+		}
+		m := map[string]any{"users": users}
+		if typ == "nilmap" {
+			m = nil
+		}
+		it := mp.NewNextIterator(7)
+		var v any
+		var err error
+		for i := 0; i <= pre; i++ {
+			v, err = mp.GetMapValue(m, path, it)
+		}
+		if err != nil {
+			return "err"
+		}
+		if v == nil {
+			return "ok nil"
+		}
+		n, perr := strconv.Atoi(fmt.Sprint(v))
+		if perr != nil {
+			return "ok other-" + vh.HexS(fmt.Sprint(v))
+		}
+		if idx == "rand" {
+			if n >= 0 && n < length {
+				return "ok inrange"
+			}
+			return "ok outofrange"
+		}
+		return fmt.Sprintf("ok %d", n)
+	})
+}
+
+var varsValues = []string{"s", "yandex", "", "randInt()", "randInt(5)", "randInt(5,5)", "randInt(10, 20)", "randInt(-3,-3)", "randInt(x)", "randInt(1,2,3)",
+	"randString(4)", "randString(0)", "randString(-1)", "randString(x)", "randString(3, ab)", "uuid()", "uuid", "nope(1)", "randInt(9223372036854775807, -9223372036854775808)",
+	"randInt(", "a(b)", "(", "randInt(1.5)", "randString(1,2,3)", "x y"}
+
+func vsrcVarsLine(r *vh.Rand, n int, onlyGood bool) string {
+	ext := r.Pick([]string{"yaml", "hcl", "yml"})
+	var kvs []string
+	for i := 0; i < n; i++ {
+		v := r.Pick(varsValues)
+		if onlyGood && (strings.Contains(v, "x)") || strings.Contains(v, "1,2,3") || strings.Contains(v, "-1)") || strings.Contains(v, "1.5") || strings.Contains(v, "92233")) {
+			v = "randInt(5,5)"
+		}
+		kvs = append(kvs, vh.HexS(fmt.Sprintf("k%d", i))+"="+vh.HexS(v))
+	}
+	return strings.TrimRight(fmt.Sprintf("vsrc %s %s vars %s", ext, r.Pick([]string{"http", "grpc"}), strings.Join(kvs, " ")), " ")
+}
+
+func r6OtherBoundary(r *vh.Rand) []string {
+	var out []string
+	for i, v := range varsValues {
+		out = append(out, fmt.Sprintf("vsrc %s %s vars %s=%s", []string{"yaml", "hcl"}[i%2], []string{"http", "grpc"}[(i/2)%2], vh.HexS("k"), vh.HexS(v)))
+	}
+	out = append(out, "vsrc yaml http vars", "vsrc hcl grpc vars")
+	for i, j := range []string{`{"a": 1}`, `[1, 2, {"b": null}]`, `"s"`, `12`, ``, `{`, `[1,`, `{"a": 1} trailing`, `nul`, "\xff", `{"a": {"b": [true, 1.5e3, "x"]}}`, ` `} {
+		out = append(out, fmt.Sprintf("vsrc %s %s json %s", []string{"yaml", "hcl", "yml"}[i%3], []string{"http", "grpc"}[i%2], vh.HexS(j)))
+	}
+	out = append(out, "vsrc yaml http json !", "vsrc hcl grpc json !")
+	for _, k := range []string{"http", "grpc"} {
+		for _, m := range []string{"noname", "missing", "dir", "hclmissing"} {
+			out = append(out, fmt.Sprintf("sdesc %s %s", k, m))
+		}
+	}
+	for _, t := range []string{"any", "str", "int", "int64", "float", "map", "smap", "scalar", "nilmap", "uints"} {
+		for _, c := range [][3]string{{"0", "3", "0"}, {"-1", "3", "0"}, {"next", "2", "3"}, {"last", "4", "0"}, {"rand", "3", "1"}, {"5", "3", "0"}, {"0", "0", "0"}, {"x", "2", "0"}, {"-7", "3", "0"}} {
+			out = append(out, fmt.Sprintf("indext %s %s %s %s", t, vh.HexS(c[0]), c[1], c[2]))
+		}
+	}
+	return out
+}
+
+// ---------------------------------------------------------------------------------------
+// configuration values with placeholders (core/config VariableInjectHook -> confutil.ResolveCustomTags)
+//
+//	ctag <type> <part>...   config.Decode of {"v": text} into a struct field of <type> (str, int, i8, u8, u64, bool, f64, dur, strs);
+//	                        text = the parts in order: L<hex> literal, P<f|n><hex> "${property:<file><suffix>}" (f: the file
+//	                        exists), E<name> "${env:<name>}", B<name> "${<name>}", U<hex> "${<hex>:x}" (no such resolver).
+//	                        Observation: err | ok <value printed>.
+
+const ctagProps = "k1=v1\nn=42\nb=true\nneg=-1\nbig=300\nf=1.5\nempty=\n"
+
+var ctagEnv = map[string]string{"C13_S": "v13", "C13_N": "42", "C13_T": "true", "C13_NEG": "-1", "C13_BIG": "300", "C13_F": "1.5", "C13_E": "", "C13_HUGE": "18446744073709551615"}
+
+func initResolvers() {
+	confutil.RegisterTagResolver("", confutil.EnvTagResolver)
+	confutil.RegisterTagResolver("ENV", confutil.EnvTagResolver)
+	confutil.RegisterTagResolver("PROPERTY", confutil.PropertyTagResolver)
+	for k, v := range ctagEnv {
+		_ = os.Setenv(k, v)
+	}
+	_ = os.Unsetenv("C13_U")
+}
+
+func ctagText(parts []string, dir string) string {
+	var b strings.Builder
+	for _, p := range parts {
+		if p == "" {
+			continue
+		}
+		arg := p[1:]
+		switch p[0] {
+		case 'L':
+			b.Write(vh.UnHex(arg))
+		case 'P':
+			path := dir + "/p.properties"
+			if arg[0] == 'n' {
+				path = dir + "/missing.properties"
+			}
+			b.WriteString("${property:" + path + string(vh.UnHex(arg[1:])) + "}")
+		case 'E':
+			b.WriteString("${env:" + arg + "}")
+		case 'B':
+			b.WriteString("${" + arg + "}")
+		case 'U':
+			b.WriteString("${" + string(vh.UnHex(arg)) + ":x}")
+		}
+	}
+	return b.String()
+}
+
+func ctagRun(typ string, parts []string) string {
+	dir, err := os.MkdirTemp("/var/tmp", "a07-ctag-")
+	if err != nil {
+		return "harness-error"
+	}
+	defer os.RemoveAll(dir)
+	_ = os.WriteFile(dir+"/p.properties", []byte(ctagProps), 0o644)
+	text := ctagText(parts, dir)
+	return guard(func() string {
+		in := map[string]any{"v": text}
+		var v any
+		var derr error
+		switch typ {
+		case "str":
+			var d struct{ V string }
+			derr = coreconfig.Decode(in, &d)
+			v = d.V
+		case "int":
+			var d struct{ V int }
+			derr = coreconfig.Decode(in, &d)
+			v = d.V
+		case "i8":
+			var d struct{ V int8 }
+			derr = coreconfig.Decode(in, &d)
+			v = d.V
+		case "u8":
+			var d struct{ V uint8 }
+			derr = coreconfig.Decode(in, &d)
+			v = d.V
+		case "u64":
+			var d struct{ V uint64 }
+			derr = coreconfig.Decode(in, &d)
+			v = d.V
+		case "bool":
+			var d struct{ V bool }
+			derr = coreconfig.Decode(in, &d)
+			v = d.V
+		case "f64":
+			var d struct{ V float64 }
+			derr = coreconfig.Decode(in, &d)
+			v = d.V
+		case "dur":
+			var d struct{ V time.Duration }
+			derr = coreconfig.Decode(in, &d)
+			v = int64(d.V)
+		case "strs":
+			var d struct{ V []string }
+			derr = coreconfig.Decode(in, &d)
+			v = strings.Join(d.V, ",")
+		default:
+			return "unknown-case"
+		}
+		if derr != nil {
+			return "err"
+		}
+		return "ok " + vh.HexS(fmt.Sprint(v))
+	})
+}
+
+var ctagParts = []string{"L" + vh.HexS("a"), "L" + vh.HexS(" "), "L" + vh.HexS("pre-"), "L" + vh.HexS("42"),
+	"Pf" + vh.HexS("#k1"), "Pf" + vh.HexS("#n"), "Pf" + vh.HexS("#b"), "Pf" + vh.HexS("#neg"), "Pf" + vh.HexS("#big"), "Pf" + vh.HexS("#f"), "Pf" + vh.HexS("#empty"),
+	"Pf" + vh.HexS(""), "Pf" + vh.HexS("#"), "Pf" + vh.HexS("#zz"), "Pf" + vh.HexS("#k1#x"), "Pf" + vh.HexS("#n "), "Pn" + vh.HexS("#k1"), "Pn" + vh.HexS(""),
+	"EC13_S", "EC13_N", "EC13_T", "EC13_NEG", "EC13_BIG", "EC13_F", "EC13_E", "EC13_HUGE", "EC13_U", "BC13_S", "BC13_N", "BC13_U", "U" + vh.HexS("nope"), "U" + vh.HexS("vault")}
+
+var ctagTypes = []string{"str", "int", "i8", "u8", "u64", "bool", "f64", "dur", "strs"}
+
+func ctagBoundary() []string {
+	var out []string
+	for _, t := range ctagTypes {
+		for _, p := range ctagParts {
+			out = append(out, "ctag "+t+" "+p)
+		}
+	}
+	for _, p := range ctagParts {
+		out = append(out, "ctag str "+"L"+vh.HexS("pre-")+" "+p+" L"+vh.HexS("-post"), "ctag str "+p+" EC13_S", "ctag int L"+vh.HexS(" ")+" "+p+" L"+vh.HexS(" "))
+	}
+	for _, l := range []string{"${", "${}", "${:}", "${env:}", "${env:C13_S", "$C13_S", "${${env:C13_S}}", "${env:{C13_S}}", "${ env : C13_S }", "${ENV:C13_S}", "${Property:x}", "}${", "${a:b:c}", "${env:C13_S}${env:C13_N}"} {
+		out = append(out, "ctag str L"+vh.HexS(l), "ctag int L"+vh.HexS(l))
+	}
+	return out
+}
+
+func ctagRandom(r *vh.Rand) string {
+	n := r.Range(1, 3)
+	var ps []string
+	for i := 0; i < n; i++ {
+		ps = append(ps, r.Pick(ctagParts))
+	}
+	return "ctag " + r.Pick(ctagTypes) + " " + strings.Join(ps, " ")
 }
